@@ -274,6 +274,8 @@ func TestParseHistory(t *testing.T) {
 				jobs[i] = drawTwinJob(rt)
 			case family == 2:
 				jobs[i] = drawJobOf(rt, 5) // every job makes the PHP 5 grammar report its own errors, at different positions
+			case family == 3:
+				jobs[i] = drawJobOf(rt, 4) // every job is import-heavy: work (and room for leftovers) for the name resolver
 			default:
 				jobs[i] = drawJob(rt)
 			}
@@ -291,6 +293,8 @@ func TestParseHistory(t *testing.T) {
 			fp     string
 			errs   []*errors.Error // the error objects the handler received, and how they read at that time
 			errStr string
+			names  map[ast.Vertex]string // the resolver's result for the kept tree, and how it read at that time
+			nmStr  string
 		}
 		first := map[int]*kept{}
 		steps := rapid.IntRange(3, 14).Draw(rt, "steps")
@@ -324,7 +328,12 @@ func TestParseHistory(t *testing.T) {
 			} else {
 				k := &kept{res: res, root: r.Root, errs: r.Errs, errStr: px.ErrString(r.Errs)}
 				if !astx.IsNil(r.Root) {
-					k.fp = astx.Fingerprint(r.Root)
+					if p := px.Guard(func() { k.names = px.Resolve(r.Root) }); p == "" {
+						k.nmStr = resolvedString(r.Root, k.names)
+					} else {
+						k.names = nil
+					}
+					k.fp = astx.Fingerprint(r.Root) // taken after the resolver's pass: later passes must not change it either
 				}
 				first[i] = k
 			}
@@ -341,6 +350,24 @@ func TestParseHistory(t *testing.T) {
 			if k := first[q]; k != nil && px.ErrString(k.errs) != k.errStr {
 				mt := map[string]string{"version": jobs[q].ver.String(), "history": hist, "jobs": jobsJSON(jobs)}
 				harness.Fail(rt, "kept-errors-changed", jobs[q].src, mt, "after history%s the errors delivered by the first parse of job %d read differently: %s", hist, q, firstDiff(k.errStr, px.ErrString(k.errs)))
+			}
+		}
+		// and the names resolved for a kept tree: the map handed out then reads the same, and resolving the
+		// kept tree once more, after everything else that ran, gives that result again
+		for q := 0; q < n; q++ {
+			k := first[q]
+			if k == nil || k.names == nil || astx.IsNil(k.root) {
+				continue
+			}
+			mt := map[string]string{"version": jobs[q].ver.String(), "history": hist, "jobs": jobsJSON(jobs)}
+			if now := resolvedString(k.root, k.names); now != k.nmStr {
+				harness.Fail(rt, "kept-names-changed", jobs[q].src, mt, "after history%s the resolved-names map obtained for job %d reads differently: %s", hist, q, firstDiff(k.nmStr, now))
+			}
+			var again map[ast.Vertex]string
+			if p := px.Guard(func() { again = px.Resolve(k.root) }); p == "" {
+				if now := resolvedString(k.root, again); now != k.nmStr {
+					harness.Fail(rt, "resolution-history-dependent", jobs[q].src, mt, "after history%s resolving the tree of job %d again gives other names than the first time: %s", hist, q, firstDiff(k.nmStr, now))
+				}
 			}
 		}
 		if strings.Contains(hist, "gc") && len(first) >= 2 {
